@@ -7,6 +7,7 @@ from translate import tables_alphabet
 
 SENT, ILLEGAL, IGNORED = 255, 254, 253
 CR_INTMAX = False    # send start / L = INT_MAX to esl_sq_CountResidues (int overflow in its range test: patch proposed, C08-countresidues-int-overflow)
+COPY_XR_NOSS = True    # True once the proposed repair C08-sqcopy-xr-without-ss has landed: esl_sq_Copy text -> digital of an object with xr markup but no ss line
 SAFE_GET2 = False    # True = keep away from the esl_sq_GetFromMSA ss-buffer overflow on reuse (repaired in 4807e60: every shape is sent)
 
 # ---- independent statement of the IUPAC codes (hand-written; NOT derived from the code) -------------------------
@@ -154,6 +155,8 @@ class C08(Prop):
         "custom_rejected_calls", "custom_setdegeneracy_post", "custom_ignored_caseins_post",
         "char_classes_regenerated", "guess_probe_regenerated", "sq_guess_counts_all", "sq_copy_spec", "match_uniform",
         "fetch_from_msa_modes_agree", "strdealign_spec", "std_gapchars_ok", "get_from_msa_ss_buffer_safe",
+        "sq_grow_covers", "sq_growto_covers", "sq_object_grow_keeps_invariant", "sq_object_digitize_textize", "sq_revcomp_markup",
+        "sq_object_copy_spec",
     )]
     claimed = True
     technique = ("Lean 4 proof: table theorems closed by `decide` over the whole regenerated tables (vs a hand-written IUPAC statement), "
@@ -279,6 +282,24 @@ class C08(Prop):
         out.append({"name": "sqcopy-ignored", "ops": ["abc type=dna", "ignored chars=2009", "dump", "sqcopy from=text to=digital hex=%s" % hx(b"AC GT ACGT"),
                                                        "sqcopy from=text to=digital hex=%s" % hx(b"ACGTACGT"), "sqcopy from=text to=text hex=%s" % hx(b"AC GT ACGT")],
                     "sticky": 2})
+        # an ESL_SQ with ss + xr markup at the allocation boundaries, every mode change (round 6)
+        import random as _random
+        for name in STD:
+            sym, K = STD[name]; Kp = len(sym); r6 = _random.Random(606); pools = self.std_pools(name)
+            ops = ["abc type=%s" % name]
+            for n in (0, 1, 2, 254, 255, 256, 257, 511, 512):
+                for dig in (False, True):
+                    for add in (False, True):
+                        scripts = (["t", "d", "g", "g"], ["r", "r"], ["t", "c:digital", "t"], ["c:text", "d", "r"], ["to:%d" % (n + 1), "t", "d"], ["g", "t", "to:%d" % (2 * n + 7), "d", "t"]) if dig else \
+                                  (["d", "t", "g", "g"], ["r", "d"], ["d", "r", "t"], ["c:digital", "t", "c:text"], ["c:text", "d", "c:digital"], ["to:%d" % n, "d", "to:%d" % (n + 1), "t"], ["g", "d", "d", "t", "t"])
+                        for sc in scripts:
+                            ops.append(self.obj_op(r6, pools, K, Kp, name in ("dna", "rna"), n=n, script=sc, dig=dig, add=add, ss=True, nxr=r6.choice([0, 1, 2])))
+            out.append({"name": "sqobj-boundaries-%s" % name, "ops": ops, "sticky": 1})
+        # regression (fixed in cdfb777): esl_sq_Copy text -> digital of an object with xr markup but no ss line left dst->xr[x] uninitialised
+        out.append({"name": "sqcopy-xr-without-ss", "sticky": 1, "ops": ["abc type=dna",
+            "sqobj init=text via=from hex=%s xr=%s script=c:digital" % (hx(b"ACGT"), hx(b"1234")),
+            "sqobj init=text via=add hex=%s xr=%s,%s script=c:digital,t" % (hx(b"ACGTNN"), hx(b"123456"), hx(b"<<..>>")),
+            "sqobj init=text via=from hex=%s ss=%s xr=%s script=c:digital" % (hx(b"ACGT"), hx(b"<..>"), hx(b"1234"))]})
         gops = []
         for c in range(1, 256):
             gops.append("sqguess hex=%s" % hx(bytes([c]) * 12))
@@ -556,6 +577,49 @@ class C08(Prop):
             ops.append("sqcadd hex=%s" % hx(b))
         return ops
 
+    def obj_op(self, rng, pools, K, Kp, has_comp, n=None, script=None, dig=None, add=None, ss=None, nxr=None):
+        """one ESL_SQ with ss / xr markup through a script of Digitize / Textize / ReverseComplement / Grow / GrowTo / Copy; lengths at the
+        allocation boundaries (CreateFrom allocates n+1 / n+2 exactly; Create + AddResidue in 256-cell chunks, doubled)"""
+        if dig is None: dig = rng.random() < 0.4
+        if add is None: add = rng.random() < 0.4
+        if n is None:
+            n = rng.choice([0, 0, 1, 2, 3, rng.randrange(0, 40), 253, 254, 255, 256, 257, 510, 511, 512, 513, rng.randrange(0, 700)])
+        okchars = pools["valid"] + pools.get("lower", b"") + pools.get("syn", b"") + pools["gap"]
+        if dig:
+            res = bytes(rng.randrange(0, Kp) for _ in range(n)); valid = True
+        else:
+            bad = rng.random() < 0.15
+            pool = okchars * 8 + (pools.get("invalid", b"")[:6] + bytes([200, 255]) + pools.get("ignored", b"") if bad else b"")
+            res = bytes(rng.choice(pool) for _ in range(n)); valid = all(c in okchars for c in res)
+        has_ss = rng.random() < 0.5 if ss is None else ss
+        if nxr is None: nxr = rng.choice([0, 0, 1, 2, 3])
+        mk = lambda: bytes(rng.choice(b"<>.()[]{}_-,:AaBb0123456789*") for _ in range(n))
+        toks = []
+        mode_dig, ss, xr = dig, has_ss, nxr
+        for _ in range(rng.randrange(0, 7) if script is None else 0):
+            r = rng.random()
+            if r < 0.22: tok = "d"
+            elif r < 0.42: tok = "t"
+            elif r < 0.52: tok = "r"
+            elif r < 0.62: tok = "g"
+            elif r < 0.74: tok = "to:%d" % rng.choice([0, n, n + 1, n + 2, n - 1 if n else 0, 254, 255, 256, 257, 2 * n + 3, rng.randrange(0, 1200)])
+            elif r < 0.87: tok = "c:digital"
+            else: tok = "c:text"
+            if tok == "c:digital" and not mode_dig and xr and not ss and not COPY_XR_NOSS: tok = "c:text"
+            if tok == "d" and valid: mode_dig = True
+            elif tok == "t": mode_dig = False
+            elif tok == "r" and (not mode_dig or has_comp): ss, xr = False, 0
+            elif tok == "c:digital":
+                if mode_dig or valid: mode_dig = True
+                else: mode_dig, ss, xr, valid = True, ss, 0, True
+            elif tok == "c:text": mode_dig = False
+            toks.append(tok)
+        if script is not None: toks = script
+        op = "sqobj init=%s via=%s hex=%s" % ("digital" if dig else "text", "add" if add else "from", hx(res))
+        if has_ss: op += " ss=%s" % hx(mk())
+        if nxr: op += " xr=%s" % ",".join(hx(mk()) for _ in range(nxr))
+        return op + " script=%s" % (",".join(toks) if toks else "-")
+
     def msa_op(self, rng):
         """esl_msa_GuessAlphabet on a text-mode alignment: rows each classified on their own (long rows of one kind, mixed
         kinds: amino + nucleic = unknown, DNA + RNA = DNA), narrow alignments decided by the pooled second pass, the 10000-letter
@@ -716,6 +780,7 @@ class C08(Prop):
         ops += self.seq_ops(rng, pools, K, Kp, hb, idx % 50 == 0, False, rng.randrange(2, 10))
         ops += self.score_ops(rng, K, Kp, list(range(K)) + [Kp - 3])
         ops += self.vec_ops(rng, K, Kp, False, pools)
+        if rng.random() < 0.4: ops += [self.obj_op(rng, pools, K, Kp, False) for _ in range(rng.randrange(1, 4))]
         return {"name": "custom%d" % idx, "ops": ops, "sticky": 1}
 
     def std_case(self, rng, hb, idx):
@@ -732,6 +797,7 @@ class C08(Prop):
         ops += self.seq_ops(rng, pools, K, Kp, hb, idx % 25 == 0, name in ("dna", "rna"), rng.randrange(3, 14))
         ops += self.score_ops(rng, K, Kp, [x for x in range(Kp) if x < K or K < x < Kp - 2])
         ops += self.vec_ops(rng, K, Kp, True, pools)
+        if rng.random() < 0.4: ops += [self.obj_op(rng, pools, K, Kp, name in ("dna", "rna")) for _ in range(rng.randrange(1, 4))]
         if rng.random() < 0.5:
             for _ in range(rng.randrange(1, 4)):
                 p2 = dict(pools); p2["ignored"] = b""
